@@ -19,6 +19,8 @@ SweepOK(ev) == ev.bad = 0 /\ ev.n_hi > 0
 TraceInit == ti = 1
 TraceNext == /\ ti <= Len(T) /\ ti' = ti + 1
              /\ LET ev == T[ti] IN CASE ev.e = "B32" -> B32OK(ev) [] ev.e = "B64" -> B64OK(ev) [] ev.e = "Sweep32" -> SweepOK(ev)
+                                     [] ev.e = "BSE" -> LET b == BytesToBits(ev.x) IN       \* argument with a side effect: the first value, evaluated once
+                                          /\ ev.r = <<PopCount(b), Clz(b), Ctz(b), IF PopCount(b) = 0 THEN -1 ELSE ILog2(b)>> /\ ev.evals = <<1, 1, 1, 1>>
                                      [] ev.e = "K64neg" -> ev.lneg = ev.zero      \* constant expression: const_lssb(0) < 0, others >= 0 [] OTHER -> FALSE
 TraceSpec == TraceInit /\ [][TraceNext]_ti
 TraceAccepted ==
